@@ -215,15 +215,6 @@ def doc_classes(root):
                 for b in range(a + 1, len(keysets)):
                     if keysets[a] & keysets[b]:
                         out.add("mergelist-overlap")
-            if v["t"] == "sq" and len(srcs) >= 2:
-                flat = []
-                for k2, v2 in es:
-                    flat.append(k2)
-                    flat.append(v2["s"] if v2["t"] == "sc" else (None if v2["t"] == "al" else ""))
-                for j in range(1, len(srcs), 2):
-                    for idx in range(j + 2, len(flat), 2):
-                        if flat[idx] is not None and flat[idx] in keysets[j]:
-                            out.add("mergelist-value-text")
     return out
 
 
@@ -409,12 +400,6 @@ def judge_doc(doc, truth, paths, rs, ryaml):
                 continue
             if r[0] == "ok" and r[1] == wv:
                 continue
-            if name == "traverse" and container and r[0] == "ok" and '"<<"' in obs(rs[2 * i])[1]:
-                out.append(("deviation", "subresult-literal-merge", "%s prints a literal << key: %s" % (expr_of(p), obs(rs[2 * i])[1][:120]), p))
-                continue
-            if name == "traverse" and container and r[0] == "ok" and unexploded_target_with_merge(doc):
-                out.append(("deviation", "subresult-nested-merge-dropped", "%s prints %s, the resolved document has %r" % (expr_of(p), obs(rs[2 * i])[1][:120], wv), p))
-                continue
             out.append(("deviation", None, "%s of %s gives %r, the resolved document has %r" % (name, expr_of(p), r[1:] if r[0] == "ok" else r, wv), p))
     ky, vy = obs(ryaml)
     if ky != "ok":
@@ -458,15 +443,6 @@ def replay_known(chk):
         chk.known_finding("mergelist-overlap", ".m.x reads 10, explode(.) | .m.x reads 1")
     if yq_json(d, ".n.x")[1] == "1" and yq_json(d, "explode(.) | .n.x")[1] == "1" and '"n":{"x":1' in r3[1]:
         chk.known_finding("explicit-before-merge", ".n.x reads 1 on all three routes")
-    d3 = "a: &a {x: 1}\nb: &b {x: 2, w: 3}\nm: {<<: [*a, *b], z: w}\n"
-    if yq_json(d3, ".m.w")[1] == "3" and yq_json(d3, "explode(.) | .m.w")[1] == "null" and '"m":{"x":1,"z":"w"}' in yq_json(d3, ".")[1]:
-        chk.known_finding("mergelist-value-text", ".m.w reads 3 but explode(.) drops the key w")
-    d4 = "a2: &a2 {x: 2}\na3: &a3 {<<: *a2}\nr: {y: 1, <<: [*a3]}\n"
-    if yq_json(d4, ".r")[1] == '{"y":1}' and yq_json(d4, "explode(.) | .r")[1] == '{"y":1,"x":2}' and yq_json(d4, ".r.x")[1] == "2":
-        chk.known_finding("subresult-nested-merge-dropped", "-o=json .r prints {\"y\":1}")
-    d2 = "c: &c {z: 9}\nd: &d 5\na: &a {<<: *c, x: *d}\nb: *a\n"
-    if yq_json(d2, ".b")[1] == '{"<<":{"z":9},"x":5}' and yq_json(d2, "explode(.) | .b")[1] == '{"z":9,"x":5}':
-        chk.known_finding("subresult-literal-merge", "-o=json .b prints {\"<<\":{\"z\":9},\"x\":5}")
 
 
 def replay(rp):
@@ -570,7 +546,7 @@ def run(chk):
             broken.append("model evaluation failed (%s): %s" % (name, err[-600:]))
             continue
         for i, mo in mism:
-            if mo == b"\xfc":
+            if mo == b"\xfc":      # a key applied to a sequence / an index to a map: not modelled
                 stats["route1_unmodelled"] += 1
                 continue
             disagreements.append((name, cs[i][2][0], expr_of(cs[i][2][1]), repr(cs[i][1]), repr(mo)))
@@ -597,6 +573,6 @@ def run(chk):
             "Spec/YamlMergeSpec.v (hand-written YAML 1.1 merge-key resolution) and the independent python resolution used by the oracle",
             "documents enter the model as trees whose alias nodes carry a copy of their anchored target (the YAML decoder's anchor map is not modelled); "
             "keys are plain scalars, the merge key is the key spelled <<",
-            "whole-document explode is modelled on trees (aliases read the exploded target); exploding only a printed sub-result is modelled just for alias results",
+            "explode is modelled on trees (an alias reads the exploded target), for the whole document and for a single printed result alike",
             "scalars are decimal integers, null and short words, so the JSON scalar encoder is not exercised here (C06)"],
         assumptions=["correspondence is sampled; the unbounded claims are the Coq theorems over the model"])
